@@ -73,6 +73,7 @@ def systematic(tier):
     for outcome in ('value', 'exc', 'factory_raises'):
         cases.append({'adapter': 'create_task', 'awaits': [0, 1], 'outcome': outcome, 'others': 1})
         cases.append({'adapter': 'create_task', 'awaits': [0, 1], 'outcome': outcome, 'others': 1, 'from_thread': True})
+        cases.append({'adapter': 'create_task', 'awaits': [0, 1], 'outcome': outcome, 'others': 1, 'default_loop': True})
     for kind in ('rpc', 'task', 'broadcast'):
         for outcome in ('value', 'exc'):
             cases.append({'adapter': 'loop_comm', 'kind': kind, 'outcome': outcome, 'awaits': [0, 1]})
@@ -98,7 +99,7 @@ def random_case(rng, tier):
     if adapter == 'create_task':
         return {'adapter': 'create_task', 'awaits': [rng.choice([0, 0.5, 1]) for _ in range(rng.randint(0, 3))],
                 'outcome': rng.choice(['value', 'value', 'exc', 'factory_raises']), 'others': rng.randint(0, 2),
-                'from_thread': rng.random() < 0.4}
+                'from_thread': rng.random() < 0.4, 'default_loop': rng.random() < 0.25}
     depth = rng.randint(1, 4)
     outcome = rng.choice(['value', 'value', 'exc', 'cancel'])
     level = depth - 1 if outcome == 'value' else rng.randrange(depth)
@@ -299,11 +300,23 @@ def _run_create_task(case, plumpy, loop, result, events):
         calls[0] += 1
         raise boom
 
+    early = None
+    if case.get('default_loop'):
+        # scheduled by synchronous code before the loop runs, without naming the loop (the current one is meant)
+        result.counters['create_task:default_loop_before_running'] += 1
+        try:
+            early = plumpy.futures.create_task(raising_factory if case['outcome'] == 'factory_raises' else coro)
+        except Exception as exc:  # noqa: BLE001
+            result.violate('wrong_outcome', 'create_task:default_loop', f'create_task without a loop, called before the loop '
+                                                                        f'runs, raised {exc!r}')
+            return
     with loop.running():
         for index in range(case.get('others', 0)):
             loop.create_task(other(index))
         factory = raising_factory if case['outcome'] == 'factory_raises' else coro
-        if case.get('from_thread'):
+        if early is not None:
+            future = early
+        elif case.get('from_thread'):
             # called the way LoopCommunicator calls it: from the communicator's thread, which has no event loop of its own
             result.counters['create_task:from_communicator_thread'] += 1
             try:
